@@ -129,9 +129,9 @@ func runCheck(prop, tier, repo, verif, only string, updateBaseline bool) int {
 	if t := os.Getenv("VERIF_TIER"); t != "" && tier == "" {
 		tier = t
 	}
-	timeout, need := 10, 1
+	timeout, need := 25, 1
 	if tier == "thorough" {
-		timeout, need = 60, 2
+		timeout, need = 120, 2
 	}
 	if s := os.Getenv("GOVC_TIMEOUT"); s != "" {
 		timeout, _ = strconv.Atoi(s)
@@ -282,7 +282,7 @@ func runCheck(prop, tier, repo, verif, only string, updateBaseline bool) int {
 			todo = append(todo, o)
 		}
 	}
-	DischargeAll(todo, outDir, timeout, need, runtime.NumCPU())
+	DischargeAll(todo, outDir, timeout, need, (runtime.NumCPU()+1)/2)
 
 	// ---- verdicts
 	known := loadKnownFindings(filepath.Join(verif, "known_findings.jsonl"))
@@ -454,7 +454,7 @@ func runCheck(prop, tier, repo, verif, only string, updateBaseline bool) int {
 	ev := map[string]interface{}{
 		"property_id": prop, "tier": tier, "seed": seed, "level": level,
 		"coverage": map[string]interface{}{
-			"obligations":              nObl,
+			"obligations":              nObl - nKnown,
 			"discharged":               discharged,
 			"checker_cmd":              strings.Join(os.Args, " "),
 			"trusted_base":             tb,
@@ -535,7 +535,7 @@ func writeReplay(dir, prop string, o *Obligation, extra map[string]interface{}, 
 
 // closedObligation builds the query of a `const` / `lemma` clause: a closed spec function must be true.
 func closedObligation(w *World, cf *ContractFile, c *Clause) *Obligation {
-	fn := w.specFn(c.SpecFn)
+	fn := w.specFn(w.PkgOfFile[cf] + "::" + c.SpecFn)
 	name := filepath.Base(filepath.Dir(cf.Path)) + "#" + c.Kind
 	if c.Label != "" {
 		name += ":" + c.Label
